@@ -27,19 +27,22 @@ def main():
     meta = json.load(open(os.path.join(dst, "meta.json"))) if os.path.exists(os.path.join(dst, "meta.json")) else {}
     demo = [l for l in open(os.path.join(dst, "zz_demo_test.go")) if l.startswith("func Test")]
     tname = re.match(r"func (Test\w+)", demo[0]).group(1)
+    tags = meta.get("demo_tags") or ""
+    tagargs = ["-tags", tags] if tags else []
+    before = set(os.listdir(os.path.join(V, "replays"))) if os.path.isdir(os.path.join(V, "replays")) else set()
     wt = f"/tmp/seedverify_{name}"
     sh(["git", "-C", "/repo", "worktree", "remove", "--force", wt])
     rc, o = sh(["git", "-C", "/repo", "worktree", "add", "-q", wt, "HEAD"])
     confirm = {}
     try:
         shutil.copy(os.path.join(dst, "zz_demo_test.go"), os.path.join(wt, "zz_demo_test.go"))
-        rc, o = sh(["go", "test", "-vet=off", "-count=1", "-run", f"^{tname}$", "."], cwd=wt)
+        rc, o = sh(["go", "test", "-vet=off", "-count=1"] + tagargs + ["-run", f"^{tname}$", "."], cwd=wt)
         confirm["demo_without_patch"] = "PASS" if rc == 0 else "FAIL"
         rc, o = sh(["git", "apply", os.path.join(dst, "patch.diff")], cwd=wt)
         confirm["patch_applies"] = rc == 0
         rc, o = sh(["go", "build", "./..."], cwd=wt)
         confirm["builds"] = rc == 0
-        rc, o = sh(["go", "test", "-vet=off", "-count=1", "-run", f"^{tname}$", "."], cwd=wt)
+        rc, o = sh(["go", "test", "-vet=off", "-count=1"] + tagargs + ["-run", f"^{tname}$", "."], cwd=wt)
         confirm["demo_with_patch"] = "PASS" if rc == 0 else "FAIL"
         os.remove(os.path.join(wt, "zz_demo_test.go"))
         rc, o = sh("go test -vet=off -count=1 . ./internal/... ./native/... 2>&1 | grep -E '^--- FAIL' | grep -v -E 'TestSaveLoadNumpy|TestDense_SVD|TestDense_SubScalar_reuse'", cwd=wt)
@@ -67,13 +70,15 @@ def main():
                         m = re.search(r"replay=(\S+)", l)
                         if m and os.path.exists(m.group(1)):
                             replay = json.load(open(m.group(1)))
-                            results[f"{p}:{tier}"]["replay"] = {k: replay.get(k) for k in ("program", "detail", "set", "what") if replay.get(k)}
+                            results[f"{p}:{tier}"]["replay"] = {k: replay.get(k) for k in ("program", "detail", "set", "what", "lean_failures") if replay.get(k)}
                             break
                     if rc == 1:
                         break
         finally:
             sh(["git", "-C", "/repo", "checkout", "--", "."])
-            sh("find /verif/replays -name '*.json' -delete")
+            for fn in os.listdir(os.path.join(V, "replays")):
+                if fn not in before:
+                    os.remove(os.path.join(V, "replays", fn))
     meta["checks_run"] = results
     meta["detected_by"] = [k for k, v in results.items() if v["exit"] == 1]
     json.dump(meta, open(os.path.join(dst, "meta.json"), "w"), indent=1)
